@@ -49,6 +49,9 @@ type CliEnv struct {
 	closing  bool
 	Sink     *net.UDPConn
 	SinkPort int
+	Ungated bool // start the next client without the loop gates
+	// Extra handles further hook events (sync round); it returns true if it did
+	Extra func(c *client.Client, ev string, args []interface{}) bool
 }
 
 // NewCliEnv prepares a client directory: keys, GCA key, one server (whose
@@ -99,6 +102,9 @@ func NewCliEnv(abs Abs, t *Trace, root, name string, id, origin uint32, servers 
 // Install routes the client hooks to this environment.
 func (e *CliEnv) Install() {
 	client.VerifHook = func(c *client.Client, ev string, args []interface{}) {
+		if e.Extra != nil && e.Extra(c, ev, args) {
+			return
+		}
 		switch ev {
 		case "Send":
 			raw := args[0].([]byte)
@@ -152,10 +158,14 @@ func (e *CliEnv) Hist() []Pair {
 // Start runs NewClient with the loop gated.
 func (e *CliEnv) Start() error {
 	e.mu.Lock()
-	e.gateOn, e.closing = true, false
+	e.gateOn, e.closing = !e.Ungated, false
 	e.mu.Unlock()
 	c, err := client.NewClient(e.Dir)
-	e.T.Emit(J{"a": "ClientStart", "ok": err == nil, "err": errStr(err), "hist": e.Hist()})
+	j := J{"a": "ClientStart", "ok": err == nil, "err": errStr(err), "hist": e.Hist(), "files": e.CliFilesJ(e.Dir)}
+	if err == nil {
+		j["state"] = e.CliStateJ(c.VerifState())
+	}
+	e.T.Emit(j)
 	if err != nil {
 		return err
 	}
@@ -224,4 +234,46 @@ func (e *CliEnv) Close() {
 			return
 		}
 	}
+}
+
+// MapJ projects a server map: sorted [key name, {banned, loc, ports}].
+func (x *Abs) MapJ(m map[glow.PublicKey]client.GCAServer) []Pair {
+	out := []Pair{}
+	for k, v := range m {
+		out = append(out, Pair{x.KR.Name(k), J{"banned": v.Banned, "loc": v.Location, "ports": []int{int(v.HttpPort), int(v.TcpPort), int(v.UdpPort)}}})
+	}
+	SortPairsStr(out)
+	return out
+}
+
+// CliStateJ projects the identity part of the client state.
+func (x *Abs) CliStateJ(st client.VerifClientState) J {
+	return J{"gca": x.KR.Name(st.GCAPubKey), "id": Clamp30(uint64(st.ShortID)), "srv": x.MapJ(st.Servers), "primary": x.KR.Name(st.PrimaryServer)}
+}
+
+// CliFilesJ decodes the three identity files of a client directory.
+func (x *Abs) CliFilesJ(dir string) J {
+	j := J{"gca": "none", "id": 0, "srv": []Pair{}}
+	if b, err := os.ReadFile(filepath.Join(dir, client.GCAPubKeyFile)); err == nil && len(b) == 32 {
+		var k glow.PublicKey
+		copy(k[:], b)
+		j["gca"] = x.KR.Name(k)
+	}
+	if b, err := os.ReadFile(filepath.Join(dir, client.ShortIDFile)); err == nil && len(b) == 4 {
+		j["id"] = Clamp30(uint64(binary.LittleEndian.Uint32(b)))
+	}
+	if b, err := os.ReadFile(filepath.Join(dir, client.GCAServerMapFile)); err == nil {
+		if ents, ok := RefServerMapDecode(b); ok {
+			out := []Pair{}
+			for _, e := range ents {
+				var k glow.PublicKey = e.Key
+				out = append(out, Pair{x.KR.Name(k), J{"banned": e.Banned, "loc": e.Location, "ports": []int{int(e.Ports[0]), int(e.Ports[1]), int(e.Ports[2])}}})
+			}
+			SortPairsStr(out)
+			j["srv"] = out
+		} else {
+			j["srv"] = []Pair{{"undecodable", J{"banned": false, "loc": "", "ports": []int{0, 0, 0}}}}
+		}
+	}
+	return j
 }
